@@ -49,5 +49,6 @@
 //	ends with "."+p (leading-dot pattern: proper sub-names only), keyword = contains, regex = Go regexp; no known domain
 //	matches nothing. Aliases: dip=ip, dport=port, domain keys ""/"domain" = suffix, "contains" = keyword. Outbounds:
 //	must_X = X(must) (must_rules is the built-in), X(mark: N), X(must).
+//	vroute.SelfTest() runs the reference on a table of hand-derived cases; call it first and treat an error as exit 2.
 //	Not supported (error from NewReference): geoip:/geosite:/ext: values, unknown functions or keys.
 package vroute
